@@ -196,6 +196,23 @@ func encodeOpaqueErrno(
 	return e.Error(), []string{e.Error()}, e.details
 }
 
+// decodeOpaqueErrno rebuilds an OpaqueErrno that is being forwarded:
+// without it the payload (and with it the portable error predicates)
+// would be dropped on the second network hop.
+func decodeOpaqueErrno(
+	_ context.Context, msg string, _ []string, payload proto.Message,
+) error {
+	m, ok := payload.(*errorspb.ErrnoPayload)
+	if !ok {
+		// If this ever happens, this means some version of the library
+		// (presumably future) changed the payload type, and we're
+		// receiving this here. In this case, give up and let
+		// DecodeError use the opaque type.
+		return nil
+	}
+	return &OpaqueErrno{msg: msg, details: m}
+}
+
 func init() {
 	baseErr := goErr.New("")
 	RegisterLeafDecoder(GetTypeKey(baseErr), decodeErrorString)
@@ -223,4 +240,5 @@ func init() {
 	RegisterWrapperDecoder(pKey, decodeSyscallError)
 
 	RegisterLeafEncoder(GetTypeKey(&OpaqueErrno{}), encodeOpaqueErrno)
+	RegisterLeafDecoder(GetTypeKey(&OpaqueErrno{}), decodeOpaqueErrno)
 }
